@@ -161,7 +161,7 @@ class LeanSide:
     def parse_theorems(self, pid):
         """names of the theorems stated in ArimProofs/<pid>.lean (namespace Arim.<pid>)"""
         txt = strip_lean_comments(self.props_file(pid).read_text())
-        names = re.findall(r"^\s*theorem\s+([A-Za-z_][A-Za-z0-9_'.]*)", txt, re.M)
+        names = re.findall(r"^\s*theorem\s+([^\s:({\[]+)", txt, re.M)
         return [f"Arim.{pid}.{n}" for n in names]
 
     def build_and_audit(self, pid, pre_build=None):
